@@ -58,7 +58,8 @@ def nofloat(F, res, cg, roots):
 
 
 def field_use(F, res):
-    f = F.fn("tx3_resolver::trp::parse_resolve_request")
+    from ..common import with_helpers
+    f = with_helpers(F, "tx3_resolver::trp::parse_resolve_request")
     adt = F.adt(RP)
     read = set()
     for b in with_closures(F, f):
@@ -95,7 +96,8 @@ def field_use(F, res):
 
 
 def declared_only(F, res):
-    f = F.fn("tx3_resolver::trp::parse_resolve_request")
+    from ..common import with_helpers
+    f = with_helpers(F, "tx3_resolver::trp::parse_resolve_request")
     cfg = mir.CFG(f)
     du = mir.DefUse(f)
     w = where(f)
